@@ -828,7 +828,10 @@ is_destructible(CPPVisibility min_vis) const {
       return false;
     }
 
-    return true;
+    // NB: if it's defaulted, it may still be deleted.
+    if ((destructor->_storage_class & CPPInstance::SC_defaulted) == 0) {
+      return true;
+    }
   }
 
   // Make sure all base classes are destructible.
